@@ -582,7 +582,9 @@ def rule_escape_siblings(ctx):
     ok_ascii = False
     if kinds == ["replace"]:
         k, pat_, bi, t = lits[0]
-        to = fn.expr_of_operand(t["args"][2])
+        to = peel(fn.expr_of_operand(t["args"][2]))
+        while to[0] in ("ref", "deref"):
+            to = peel(to[1])
         ok_ascii = pat_ == '"\\\\ "' and to[0] == "constx" and to[1] == '" "'
     elif kinds == ["split", "split_once"]:
         ok_ascii = all(pat_ == '"\\\\ "' for _, pat_, _, _ in lits)
